@@ -10,7 +10,11 @@
        Reassemble  the blocks, placed by their block index, are the computed array   *)
 EXTENDS ArrayMeta, TraceIO
 
-Bad(r) == IF r.obs.raised # "" THEN {"Raised"} ELSE TrimClauses(MetaClauses(r.obs), MetaOrder)
+\* records of the exhaustive basic-index family also carry `want`, the shape NumPy gives
+Bad(r) == IF r.obs.raised # "" THEN {"Raised"}
+          ELSE TrimClauses(MetaClauses(r.obs)
+                           \cup (IF "want" \in DOMAIN r THEN Clause("Shape", r.obs.whole.s = r.want) ELSE {}),
+                           <<"Shape">> \o MetaOrder)
 
 Init == TInit
 Next == TNext(Bad)
